@@ -1,6 +1,7 @@
 package main
 
 import (
+	"bytes"
 	"context"
 	"fmt"
 	"sync"
@@ -135,6 +136,7 @@ func runC14(r *ev.Run) {
 		}
 	}
 	runCancelRacesReply(r, "C14")
+	c14ConcurrentWrongIdentity(r, g)
 	c14Kademlia(r, g)
 }
 
@@ -235,4 +237,77 @@ func c14Kademlia(r *ev.Run, g *rng.R) {
 	r.Eval(ops.Load())
 	r.NonTrivial("kademlia/concurrent-handlers")
 	r.Count("kademlia_ops", ops.Load())
+}
+
+// c14ConcurrentWrongIdentity: several goroutines at once tell identities that do not match the channel a p2pkeswarm node already
+// holds for that transport address (stale address-book entries), next to honest traffic: the paths that replace a channel are
+// concurrent use too.
+func c14ConcurrentWrongIdentity(r *ev.Run, g *rng.R) {
+	caseID := fmt.Sprintf("p2pke-wrong-identity-concurrent-%d", r.Batch)
+	if !r.Want(caseID) || r.Batch%2 != 0 {
+		return
+	}
+	st := buildP2PKEMem(stackOpts{n: 4})
+	defer st.CloseAll()
+	n := len(st.Nodes)
+	ctx, cancel := context.WithCancel(context.Background())
+	defer cancel()
+	for i := 0; i < n; i++ {
+		node := st.Nodes[i]
+		go func() {
+			for {
+				if node.Receive(ctx, func(Msg) {}) != nil {
+					return
+				}
+			}
+		}()
+	}
+	// honest all pairs first: every node holds a channel for every other node's address
+	for i := 0; i < n; i++ {
+		for j := 0; j < n; j++ {
+			if i != j {
+				tctx, cf := context.WithTimeout(ctx, 3*time.Second)
+				st.Nodes[i].Tell(tctx, j, p2p.IOVec{[]byte("hello")})
+				cf()
+			}
+		}
+	}
+	var wg sync.WaitGroup
+	var calls atomic.Int64
+	for w := 0; w < 8; w++ {
+		lg := g.Fork()
+		wg.Add(1)
+		go func() {
+			defer wg.Done()
+			for k := 0; k < pick(r, 30, 150); k++ {
+				s, x, y := lg.Intn(n), lg.Intn(n), lg.Intn(n)
+				if x == y || s == y {
+					continue
+				}
+				ax, _ := st.Nodes[x].LocalAddrs()[0].MarshalText()
+				ay, _ := st.Nodes[y].LocalAddrs()[0].MarshalText()
+				ix, iy := bytes.IndexByte(ax, '@'), bytes.IndexByte(ay, '@')
+				if ix < 0 || iy < 0 {
+					continue
+				}
+				addr, err := st.Nodes[s].ParseAddr(append(append([]byte{}, ax[:ix]...), ay[iy:]...))
+				if err != nil {
+					continue
+				}
+				tctx, cf := context.WithTimeout(ctx, 20*time.Millisecond)
+				st.Nodes[s].TellAddr(tctx, addr, p2p.IOVec{[]byte("to a stale identity")})
+				cf()
+				calls.Add(1)
+				if lg.Chance(1, 3) {
+					tctx, cf := context.WithTimeout(ctx, 50*time.Millisecond)
+					st.Nodes[s].Tell(tctx, y, p2p.IOVec{[]byte("honest again")})
+					cf()
+				}
+			}
+		}()
+	}
+	wg.Wait()
+	r.Eval(calls.Load())
+	r.NonTrivial("p2pke/wrong-identity-concurrent")
+	r.Count("wrong_identity_tells", calls.Load())
 }
